@@ -3,6 +3,7 @@ package keeper
 import (
 	"github.com/cosmos/cosmos-sdk/codec"
 	storetypes "github.com/cosmos/cosmos-sdk/store/types"
+	sdk "github.com/cosmos/cosmos-sdk/types"
 	stakingkeeper "github.com/cosmos/cosmos-sdk/x/staking/keeper"
 	"github.com/cosmos/cosmos-sdk/x/staking/types"
 )
@@ -27,4 +28,9 @@ func NewKeeper(
 		ak,
 		bk,
 	}
+}
+
+// GetBondDenomBalance returns the balance of the bond denomination that the bank keeper holds for addr.
+func (k Keeper) GetBondDenomBalance(ctx sdk.Context, addr sdk.AccAddress) sdk.Coin {
+	return k.bk.GetBalance(ctx, addr, k.BondDenom(ctx))
 }
